@@ -595,3 +595,249 @@ def line_count(ctx):
             ctx.ok("column.last-newline", db.where(mr), "column computation not in a recognised normal form (not decided)")
     cp = [s for s in walk_func(mr) if isinstance(s, ast.Assign) and dotted(s.targets[0]) == "self.matched_charpos"]
     ctx.check(bool(cp) and bool(mp) and isinstance(cp[0].value, ast.BinOp) and isinstance(cp[0].value.op, ast.Sub) and src(cp[0].value.left) == src(mp[0].targets[0]), "column", db.where(mr), "column is `%s`" % (src(cp[0].value) if cp else None), "column = old cursor - position of the previous newline")
+
+
+# ----------------------------------------------------------------------
+# line scanners of pygen (run by the lexer on every <% %> block, and by the printer)
+# ----------------------------------------------------------------------
+
+QUOTES = ['"""', "'''"]
+
+
+def _regex_instances(node):
+    """pattern strings of a regex argument: a literal, or `literal % <state>` instantiated with both triple quotes"""
+    p = str_value(node)
+    if p is not None:
+        return [p]
+    if isinstance(node, ast.BinOp) and isinstance(node.op, ast.Mod) and str_value(node.left) is not None and str_value(node.left).count("%s") == 1:
+        return [str_value(node.left).replace("%s", q) for q in QUOTES]
+    return None
+
+
+def _lookahead_alternatives(sub):
+    """for a regex of the shape <lazy repeat><look-ahead>: the finite strings the look-ahead accepts ('' = end of line)"""
+    items = list(sub)
+    if len(items) == 2 and items[0][0] in rx.REPEATS and items[0][1][0] == 0 and items[1][0] == rx.OP.ASSERT and items[1][1][0] > 0:
+        return rx.finite_language(items[1][1][1], rx.flags_of(sub))
+    return None
+
+
+class _ScanLoop:
+    """symbolic walk over the body of `while line:`; decides that every path back to the loop head has shortened `line`"""
+
+    def __init__(self, fn, loop, var, helper):
+        self.fn, self.loop, self.var, self.helper = fn, loop, var, helper
+        self.problems = []
+        self.sites = 0
+
+    def regexes(self, call):
+        return _regex_instances(call.args[0])
+
+    def consuming(self, pats, failed):
+        """does a successful match of every instance consume at least one character of a non-empty line on which `failed` did not match"""
+        why = None
+        for p in pats:
+            sub = rx.parse(p)
+            if not rx.nullable(sub):
+                continue
+            alts = _lookahead_alternatives(sub)
+            if alts is None:
+                return False, "regex %r can match the empty string" % p
+            for w in alts:
+                if w == "":
+                    continue  # end of line: the loop ends
+                if not any(any(w.startswith(x) for x in f if x) for f in failed):
+                    return False, "regex %r matches the empty string in front of %r, which nothing tried before it consumes" % (p, w)
+        return True, why
+
+    def total(self, pats):
+        for p in pats:
+            sub = rx.parse(p)
+            alpha = [c for c in rx.alphabet([sub], "\"'#\\ax \t") if c != "\n"]
+            ok, wit = rx.prefix_total(rx.PNFA(p, 0, sub), alpha)
+            if not ok:
+                return False, "regex %r does not match every line (e.g. %r)" % (p, wit)
+        return True, None
+
+    def run(self, stmts, st):
+        """st: dict(progress=bool, m={var: (pats, status)}, failed=[finite languages]) -> list of (outcome, st)"""
+        states = [st]
+        for s in stmts:
+            nxt = []
+            for cur in states:
+                nxt.extend(self.step(s, cur))
+            out = [x for x in nxt if x[0] != "fall"]
+            for o in out:
+                self.finish(o, s)
+            states = [x[1] for x in nxt if x[0] == "fall"]
+            if not states:
+                return []
+        return [("fall", x) for x in states]
+
+    def finish(self, o, s):
+        kind, st = o
+        if kind == "continue" and not st["progress"]:
+            self.problems.append((s, "`continue` reached without `%s` having been shortened" % self.var))
+
+    def step(self, s, st):
+        var = self.var
+        # m, line = match(R, line)
+        if isinstance(s, ast.Assign) and isinstance(s.targets[0], ast.Tuple) and len(s.targets[0].elts) == 2 and isinstance(s.value, ast.Call) and dotted(s.value.func) == self.helper and src(s.targets[0].elts[1]) == var and len(s.value.args) == 2 and src(s.value.args[1]) == var:
+            pats = self.regexes(s.value)
+            self.sites += 1
+            if pats is None:
+                self.problems.append((s, "regex of `%s` is not a constant" % src(s)))
+                return [("fall", st)]
+            mv = src(s.targets[0].elts[0])
+            tot, _w = self.total(pats)
+            new = dict(st, m=dict(st["m"]))
+            if tot:
+                ok, why = self.consuming(pats, st["failed"])
+                if ok:
+                    new["progress"] = True
+                else:
+                    new["note"] = why
+                new["m"][mv] = (pats, True, True)
+            else:
+                new["m"][mv] = (pats, None, True)
+                new["note"] = _w
+            return [("fall", new)]
+        # m = re.match(R, line)
+        if isinstance(s, ast.Assign) and isinstance(s.targets[0], ast.Name) and isinstance(s.value, ast.Call) and dotted(s.value.func) == "re.match" and len(s.value.args) >= 2 and src(s.value.args[1]) == var:
+            pats = self.regexes(s.value)
+            self.sites += 1
+            new = dict(st, m=dict(st["m"]))
+            new["m"][s.targets[0].id] = (pats, None, False)
+            return [("fall", new)]
+        # line = line[m.end():]
+        if isinstance(s, ast.Assign) and src(s.targets[0]) == var:
+            env = {}
+            if P.matches(s, "%s = %s[$m.end():]" % (var, var), env) and isinstance(env["m"][1], ast.Name) and env["m"][1].id in st["m"]:
+                pats, status, consumed = st["m"][env["m"][1].id]
+                new = dict(st)
+                if status is True and pats is not None and all(not rx.nullable(rx.parse(p)) for p in pats):
+                    new["progress"] = True
+                else:
+                    new["note"] = "`%s` is cut at the end of a match that may be empty or absent" % var
+                return [("fall", new)]
+            self.problems.append((s, "`%s` is rebound in a way the analysis does not follow: %s" % (var, src(s))))
+            return [("fall", st)]
+        if isinstance(s, ast.Continue):
+            return [("continue", st)]
+        if isinstance(s, ast.Break):
+            return [("break", st)]
+        if isinstance(s, ast.Return):
+            return [("return", st)]
+        if isinstance(s, ast.If):
+            t, f = self.refine(s.test, st)
+            out = []
+            if t is not None:
+                out.extend(self.run(s.body, t))
+            if f is not None:
+                out.extend(self.run(s.orelse, f) if s.orelse else [("fall", f)])
+            return out
+        if isinstance(s, (ast.While, ast.For, ast.Try, ast.With)):
+            self.problems.append((s, "nested %s inside the scan loop is not followed" % type(s).__name__))
+        return [("fall", st)]
+
+    def refine(self, test, st):
+        """(state if test true, state if test false)"""
+        def known(mv, val, base):
+            pats, status, consumed = base["m"][mv]
+            if status is not None and status != val:
+                return None
+            new = dict(base, m=dict(base["m"]), failed=list(base["failed"]))
+            new["m"][mv] = (pats, val, consumed)
+            if val and consumed and pats is not None and all(not rx.nullable(rx.parse(p)) for p in pats):
+                new["progress"] = True
+            if not val and pats is not None:
+                langs = [rx.finite_language(rx.parse(p)) for p in pats]
+                if all(l is not None for l in langs):
+                    new["failed"].append(sorted({w for l in langs for w in l}))
+            return new
+        if isinstance(test, ast.Name) and test.id in st["m"]:
+            return known(test.id, True, st), known(test.id, False, st)
+        if isinstance(test, ast.UnaryOp) and isinstance(test.op, ast.Not) and isinstance(test.operand, ast.Name) and test.operand.id in st["m"]:
+            return known(test.operand.id, False, st), known(test.operand.id, True, st)
+        if isinstance(test, ast.BoolOp) and isinstance(test.op, ast.Or) and isinstance(test.values[0], ast.UnaryOp) and isinstance(test.values[0].op, ast.Not) and isinstance(test.values[0].operand, ast.Name) and test.values[0].operand.id in st["m"]:
+            # `not m or X`: false only when m matched
+            return st, known(test.values[0].operand.id, True, st)
+        return st, st
+
+
+@rule("C01.scanner-loops", min_instances=2)
+def scanner_loops(ctx):
+    """the line scanners the lexer runs over every <% %> block (and the printer over every emitted block) shorten the line on every trip round their loop: they terminate on every input"""
+    db = ctx.db
+    for q, helper in (("pygen.adjust_whitespace.in_multi_line", "match"), ("pygen.PythonPrinter._in_multi_line", None)):
+        fn = db.func(q)
+        line = pn(fn, 0 if q.endswith(".in_multi_line") and "PythonPrinter" not in q else 1)
+        loops = [n for n in walk_func(fn) if isinstance(n, ast.While) and isinstance(n.test, ast.Name) and n.test.id == line]
+        ctx.require(len(loops) == 1, "%s: `while %s:` loop not found" % (q, line))
+        if helper:
+            h = [f for f in fn.body if isinstance(f, ast.FunctionDef) and f.name == helper]
+            ctx.require(h, "%s: helper %s() not found" % (q, helper))
+            hp = h[0]
+            ok = P.has(hp, "$m = re.match(%s, %s)\nif $m:\n    return ($m, %s[len($m.group(0)):])\nelse:\n    return (None, %s)" % (pn(hp, 0), pn(hp, 1), pn(hp, 1), pn(hp, 1)))
+            ctx.check(ok, "helper:" + q.split(".")[-2], db.where(hp), "the match helper does not return (match, rest after the match) / (None, unchanged text)", "match() returns the rest after a match, the text unchanged otherwise")
+        sl = _ScanLoop(fn, loops[0], line, helper)
+        outs = sl.run(loops[0].body, dict(progress=False, m={}, failed=[]))
+        for kind, st in outs:
+            if kind == "fall" and not st["progress"]:
+                sl.problems.append((loops[0], "the end of the loop body is reached without `%s` having been shortened%s" % (line, (": " + st["note"]) if st.get("note") else "")))
+        ctx.require(sl.sites >= 2, "%s: match sites in the scan loop not recognised (%d)" % (q, sl.sites))
+        key = "progress:" + q.split(".", 1)[1]
+        if sl.problems:
+            s, why = sl.problems[0]
+            ctx.violation(key, db.where(s), "%s may loop forever: %s" % (q, why))
+        else:
+            ctx.ok(key, db.where(loops[0]), "every trip round the loop shortens `%s` (%d match sites)" % (line, sl.sites))
+
+
+@rule("C01.text-stops-cover", min_instances=2, props=["C03"])
+def text_stops_cover(ctx):
+    """wherever a construct tried before the text matcher can begin inside running text (on one line, after its indentation), the text regex has a stop: otherwise the construct is swallowed as text"""
+    db = ctx.db
+    sites = lexer_match_sites(db)
+    loop, casc = cascade(db)
+    order = [m for m, _, _ in casc]
+    primary = {}
+    for name, c, pat, fl, dyn in sites:
+        if name in order and name not in primary and pat is not None:
+            primary[name] = (pat, fl, c)
+    ctx.require("match_text" in primary, "text regex not found")
+    pat, fl, c = primary["match_text"]
+    sub = rx.parse(pat, fl)
+    stops = _stops_of_text(sub)
+    alpha = [ch for ch in rx.alphabet([rx.parse(p, f) for p, f, _ in primary.values()], "<%/$#{}\\\t !\x0b") if ch not in "\r\n"]
+    rights = []
+    for alt in stops:
+        try:
+            r = rx.PNFA(rx.describe(alt), fl, sub=alt)
+            r.flags = rx.flags_of(sub)
+            rights.append(r)
+        except rx.Unsupported as e:
+            ctx.undecided("stop:" + rx.describe(alt), db.where(c), "stop not analysable: %s" % e)
+    n = 0
+    for m in order[: order.index("match_text")]:
+        if m not in primary or m == "match_end":
+            continue
+        if ctx.prop == "C03" and m not in ("match_control_line", "match_python_block"):
+            continue  # C03 is concerned with % lines and <% %> blocks only
+        p2, f2, c2 = primary[m]
+        try:
+            L = rx.PNFA(p2, f2)
+        except rx.Unsupported as e:
+            ctx.note("skipped:" + m, str(e))
+            continue
+        if L.context == "linestart":
+            L.context = "after-nl"  # inside running text a line start is a position after a newline
+        n += 1
+        good, wit, used = rx.covered(L, rights, alpha)
+        if good:
+            ctx.ok("cover:" + m, db.where(c2), "the text regex stops wherever %s can begin" % m)
+        else:
+            cls = "other-whitespace" if wit[:1].isspace() and wit[:1] not in " \t" else wit[:2].encode("unicode_escape").decode("ascii")
+            ctx.violation("cover:lexer.Lexer.%s#begins-with:%s" % (m, cls), db.where(c),
+                          "%s can begin with %r at a line position inside running text, but the text regex has no stop there: the construct is copied to the output as text there, while the same line directly after another directive is recognised" % (m, wit), witness=wit)
+    ctx.require(n >= (6 if ctx.prop != "C03" else 2), "only %d matchers before match_text analysed" % n)
